@@ -10,8 +10,8 @@
      gix-worktree/src/stack/state/attributes.rs  which lists are on the stack for a path, matching_attributes
    Abstractions: attribute ids are the attribute names (the collection interns names, an id is the position of the
    first occurrence); `Outcome::matches_by_id` is the association list [filled] of the slots that have a match (most
-   recent first), `remaining` is modelled by [remaining_after] over an explicit universe of names (Properties:
-   the early exits never change a result).  No proofs in this file. *)
+   recent first), `remaining` is modelled by [remaining] over an explicit universe of names (the *_early
+   definitions; Properties: the early exits never change a result, so the executed path is the one without them).  No proofs in this file. *)
 From GixV.Base Require Import Bytes.
 From GixV.C38 Require Import Glob.
 Local Open Scope N_scope.
